@@ -794,6 +794,7 @@ impl World {
                 }
             }
             Op::Search(_) | Op::Timeline(_) | Op::SearchVec { .. } => crate::reads::exec_read(self, i, op),
+            Op::AclSearch { .. } => crate::acl::exec_acl(self, i, op),
             Op::Wal(_) => (false, true, None),
             Op::Open2 | Op::Doctor2 => {
                 // C17: only meaningful while a writable handle is alive
@@ -940,7 +941,7 @@ impl World {
                     self.verify_expect = self.verify_expect_next.take();
                 }
             }
-            Op::Close | Op::Verify { .. } | Op::Check | Op::OpenRo | Op::Search(_) | Op::Timeline(_) | Op::SearchVec { .. } => {}
+            Op::Close | Op::Verify { .. } | Op::Check | Op::OpenRo | Op::Search(_) | Op::Timeline(_) | Op::SearchVec { .. } | Op::AclSearch { .. } => {}
             _ => self.verify_expect = None,
         }
         if matches!(op, Op::Commit | Op::Open | Op::Close | Op::Vacuum | Op::Abandon) {
@@ -1190,6 +1191,7 @@ impl World {
                     tags: if spec.lib_defaults { None } else if spec.tags.is_empty() { o.and_then(|f| f.tags.clone()).or(Some(vec![])) } else { Some(spec.tags.clone()) },
                     labels: if spec.lib_defaults { None } else if spec.labels.is_empty() { o.and_then(|f| f.labels.clone()).or(Some(vec![])) } else { Some(spec.labels.clone()) },
                     acl_allow: None,
+                    extra: if spec.extra.is_empty() { o.map(|f| f.extra.clone()).unwrap_or(Some(Default::default())) } else { Some(spec.extra.clone()) },
                     whole,
                     ts_candidates: Vec::new(),
                 };
@@ -1224,6 +1226,7 @@ impl World {
                             tags: ptags.clone(),
                             labels: plabels.clone(),
                             acl_allow: None,
+                            extra: None,
                             whole: true,
                             ts_candidates: Vec::new(),
                         });
